@@ -411,8 +411,37 @@ func cutsOf(r *gen.Rand, total int) [][]int {
 
 func isSelector(fn string) bool { return fn == "min" || fn == "max" || fn == "first" || fn == "last" }
 
+// fixedAggStreams: minimal boundary streams, always run: two rows in adjacent windows with the second one exactly on the
+// window start (a cut between them must not merge the windows), two rows of one window (a cut must not split it),
+// the same for a tag group boundary, ascending and descending
+func fixedAggStreams() []*AggStream {
+	p := func(v int64) *int64 { return &v }
+	var out []*AggStream
+	for _, desc := range []bool{false, true} {
+		for _, fn := range []string{"count", "sum", "last"} {
+			mk := func(grouped, hasIv bool, rows []AggRow) {
+				if desc {
+					rev := make([]AggRow, len(rows))
+					for i := range rows {
+						rev[len(rows)-1-i] = rows[i]
+					}
+					rows = rev
+				}
+				out = append(out, &AggStream{InCols: []string{"int"}, Calls: []AggCall{{Fn: fn, Col: 0}}, Grouped: grouped, HasIv: hasIv, Desc: desc, Rows: rows})
+			}
+			mk(false, true, []AggRow{{0, 9, []*int64{p(3)}}, {0, 10, []*int64{p(5)}}})
+			mk(false, true, []AggRow{{0, 0, []*int64{p(3)}}, {0, 10, []*int64{p(5)}}, {0, 20, []*int64{p(7)}}})
+			mk(false, true, []AggRow{{0, 10, []*int64{p(3)}}, {0, 19, []*int64{p(5)}}})
+			mk(true, true, []AggRow{{0, 10, []*int64{p(3)}}, {1, 10, []*int64{p(5)}}})
+			mk(true, false, []AggRow{{0, 1, []*int64{p(3)}}, {0, 11, []*int64{p(5)}}, {1, 11, []*int64{p(7)}}})
+			mk(false, false, []AggRow{{0, 1, []*int64{p(3)}}, {0, 11, []*int64{p(5)}}})
+		}
+	}
+	return out
+}
+
 func runAggCases(r *gen.Rand, n int, fixed []*AggStream) {
-	streams := append([]*AggStream{}, fixed...)
+	streams := append(fixedAggStreams(), fixed...)
 	for i := 0; i < n; i++ {
 		streams = append(streams, genAggStream(r))
 	}
